@@ -425,3 +425,62 @@ package server
 //@ assigns convFailed, sent(msgCh), sent(errCh), sent(doneCh), recvd(stopCh), gotNI, getpos_v4, getpos_v6, getpos_mpls, getpos_nhg, getpos_nh
 //@ props C07 C12:safety C11:lock C12:ensures#nil-req C12:ensures#empty-name C12:ensures#unknown-instance C12:ensures#unsupported-table C12:ensures#rib-untouched C12:ensures#done-once
 // ---- END Get (C07) ----
+
+// ---- server construction: the options decide how the RIB is gated, which instances exist and which hooks are installed;
+// New establishes the invariants every RPC handler requires of the master RIB (ribReady, except the locks and the clock).
+//@ unit hasDisableCheckFn
+//@ ensures result0 <==> exists i in 0..len(opt) :: istype(opt[i], *disableCheckFn)
+//@ loop 1 at "range opt" invariant forall i in 0..loopi :: !istype(opt[i], *disableCheckFn)
+//@ assigns nothing
+//@ props C02 C16 C12:safety
+
+//@ unit hasWithNoRIBForwardReferences
+//@ ensures result0 <==> exists i in 0..len(opt) :: istype(opt[i], *disableRIBForwardRefs)
+//@ loop 1 at "range opt" invariant forall i in 0..loopi :: !istype(opt[i], *disableRIBForwardRefs)
+//@ assigns nothing
+//@ props C02 C16 C12:safety
+
+//@ unit hasPostChangeRIBHook
+//@ ensures[first-of-its-kind] (exists i in 0..len(opt) :: istype(opt[i], *postChangeRibHook)) ==> (exists i in 0..len(opt) :: istype(opt[i], *postChangeRibHook) && payload(opt[i]) == result0 && (forall j in 0..i :: !istype(opt[j], *postChangeRibHook)))
+//@ ensures[none] (forall i in 0..len(opt) :: !istype(opt[i], *postChangeRibHook)) ==> result0 == nil
+//@ loop 1 at "range opt" invariant forall i in 0..loopi :: !istype(opt[i], *postChangeRibHook)
+//@ assigns nothing
+//@ props C16 C12:safety
+
+//@ unit hasResolvedEntryHook
+//@ ensures[first-of-its-kind] (exists i in 0..len(opt) :: istype(opt[i], *resolvedEntryHook)) ==> (exists i in 0..len(opt) :: istype(opt[i], *resolvedEntryHook) && payload(opt[i]) == result0 && (forall j in 0..i :: !istype(opt[j], *resolvedEntryHook)))
+//@ ensures[none] (forall i in 0..len(opt) :: !istype(opt[i], *resolvedEntryHook)) ==> result0 == nil
+//@ loop 1 at "range opt" invariant forall i in 0..loopi :: !istype(opt[i], *resolvedEntryHook)
+//@ assigns nothing
+//@ props C16 C12:safety
+
+//@ unit hasWithVRFs
+//@ ensures[first-of-its-kind] (exists i in 0..len(opt) :: istype(opt[i], *withVRFs)) ==> (exists i in 0..len(opt) :: istype(opt[i], *withVRFs) && result0 == opt[i].(*withVRFs).names && (forall j in 0..i :: !istype(opt[j], *withVRFs)))
+//@ ensures[none] (forall i in 0..len(opt) :: !istype(opt[i], *withVRFs)) ==> len(result0) == 0
+//@ requires[no-typed-nil] forall i in 0..len(opt) :: istype(opt[i], *withVRFs) ==> payload(opt[i]) != 0
+//@ loop 1 at "range opt" invariant forall i in 0..loopi :: !istype(opt[i], *withVRFs)
+//@ assigns nothing
+//@ props C02 C12:safety
+
+//@ unit New
+//@ requires[no-typed-nil] forall i in 0..len(opt) :: (istype(opt[i], *withVRFs) || istype(opt[i], *postChangeRibHook) || istype(opt[i], *resolvedEntryHook)) ==> payload(opt[i]) != 0
+//@ requires nolocks(rib.RIBHolder.mu)
+//@ ensures[one-of] (result0 == nil) != (result1 == nil)
+//@ ensures[rib-invariants] result1 == nil ==> fresh(result0) && result0.masterRIB != nil && fresh(result0.masterRIB) && holdersWF(result0.masterRIB) && pendingWF(result0.masterRIB)
+//@   && gateInv(result0.masterRIB) && hookInv(result0.masterRIB) && dom(result0.masterRIB.pendingEntries) == emptyset(uint64)
+//@ ensures[no-sessions] result1 == nil ==> result0.cs != nil && dom(result0.cs) == emptyset(string)
+//@ ensures[check-unless-disabled] result1 == nil ==> (result0.masterRIB.ribCheck <==> !(exists i in 0..len(opt) :: istype(opt[i], *disableCheckFn)))
+//@ ensures[forward-reference-policy] result1 == nil ==> (result0.masterRIB.disableForwardReferences <==> (exists i in 0..len(opt) :: istype(opt[i], *disableRIBForwardRefs)))
+//@ ensures[default-instance] result1 == nil ==> result0.masterRIB.defaultName == DefaultNetworkInstanceName && DefaultNetworkInstanceName in dom(result0.masterRIB.niRIB)
+//@ ensures[vrfs-created] result1 == nil ==> forall i in 0..len(opt) :: istype(opt[i], *withVRFs) && (forall j in 0..i :: !istype(opt[j], *withVRFs))
+//@   ==> (forall k in 0..len(opt[i].(*withVRFs).names) :: opt[i].(*withVRFs).names[k] in dom(result0.masterRIB.niRIB))
+//@ ensures[only-requested-instances] result1 == nil && (forall i in 0..len(opt) :: !istype(opt[i], *withVRFs)) ==> dom(result0.masterRIB.niRIB) == add(emptyset(string), DefaultNetworkInstanceName)
+//@ ensures[post-change-hook] result1 == nil ==> forall i in 0..len(opt) :: istype(opt[i], *postChangeRibHook) && (forall j in 0..i :: !istype(opt[j], *postChangeRibHook))
+//@   ==> result0.masterRIB.postChangeHook == opt[i].(*postChangeRibHook).fn
+//@ ensures[resolved-entry-hook] result1 == nil ==> forall i in 0..len(opt) :: istype(opt[i], *resolvedEntryHook) && (forall j in 0..i :: !istype(opt[j], *resolvedEntryHook))
+//@   ==> result0.masterRIB.resolvedEntryHook == opt[i].(*resolvedEntryHook).fn
+//@ loop 1 at "range vrfs" invariant s != nil && fresh(s) && s.masterRIB != nil && fresh(s.masterRIB) && holdersWF(s.masterRIB) && pendingWF(s.masterRIB) && gateInv(s.masterRIB) && hookInv(s.masterRIB)
+//@ loop 1 invariant dom(s.masterRIB.pendingEntries) == emptyset(uint64) && s.masterRIB.defaultName == DefaultNetworkInstanceName && DefaultNetworkInstanceName in dom(s.masterRIB.niRIB) && nolocks(rib.RIBHolder.mu) && held(s.masterRIB.nrMu) == 0
+//@ loop 1 invariant (forall k in 0..loopi :: vrfs[k] in dom(s.masterRIB.niRIB)) && s.cs != nil && dom(s.cs) == emptyset(string) && onlyfresh()
+//@ assigns nothing
+//@ props C02 C03 C16 C12:safety
